@@ -120,6 +120,12 @@ func (a *activityManager) dispatch() {
 		}
 		log := new(raft.Log)
 		if err := raftNode.store.GetLog(index, log); err != nil {
+			select {
+			case <-a.shutdownCh:
+				// The Raft store is closed when the server shuts down.
+				return
+			default:
+			}
 			panic(err)
 		}
 		if log.Type != raft.LogCommand {
